@@ -29,8 +29,8 @@ RULE = ("integer tensors (Tucker-structured low rank with integer core/factors, 
         "2^(+-24) (Kruskal: in the weights or in one factor), dense tensors held in float32/int64/int32/int16/int8/uint8/uint16 with "
         "magnitudes whose slice inner products overflow that dtype, Tucker tensors (dense and sparse core) whose factor matrices are "
         "scipy coo matrices (all / some; the requested mode's factor sparse and dense), sparse tensors whose vals are "
-        "int64/int32/int16/uint8/int8/float32 (both solver paths; finding C14-F4), Tucker tensors whose core and factors are "
-        "int64/int32/float32/uint8/int8/int16 (narrow ones with overflowing intermediate products; finding C14-F5), Tucker/Kruskal factors with unit-norm columns (signed unit vectors: "
+        "int64/int32/int16/uint8/int8/float32 (both solver paths; ordinary since /repo 6aef7c8), Tucker tensors whose core and factors are "
+        "int64/int32/float32/uint8/int8/int16 (narrow ones at magnitudes where an intermediate product would overflow the type; ordinary since /repo 4b7dc0e; the witnesses of C14-F4 / C14-F5 are fixed regression cases), Tucker/Kruskal factors with unit-norm columns (signed unit vectors: "
         "orthonormal, or repeated = not orthogonal; generic directions normalised on the 2^-30 grid); sequences of nvecs calls over all modes "
         "on ONE object with another operation between the calls (normalize / normalize(weight_factor=k|'all') / normalize(sort) / arrange / "
         "fixsigns / redistribute / full / norm / innerprod / ttv / to_tenmat / collapse), sparse sequences checked at the Gram matrix; "
@@ -82,8 +82,9 @@ EXPLANATION = ("C14_gram_dense / _sparse / _kruskal / _tucker: the Gram matrix t
                "only-singleton shapes are refused; C14_sparse_post_dense_sorted / _iter_sorted / _iter_one, C14_argsort_sorted_id: the code's own "
                "post-processing on the sparse path (row permutation / no sort: finding A-38) is the postprocess of the other representations "
                "when the solver output has |w| non-increasing; "
-               "C14_gram_sparse_held / C14_gram_tucker_held: the behaviour the property demands of sparse / Tucker holders of another element type "
-               "(conversion before the product; open findings C14-F4 / C14-F5); "
+               "C14_gram_sparse_held / C14_gram_tucker_held: sptensor.nvecs (tnt.astype(float64), /repo 6aef7c8) and ttensor.nvecs (float64 copies of "
+               "core and factors, /repo 4b7dc0e) convert holders of another element type BEFORE any product, so the solver input is the Gram "
+               "matrix of the converted entries (findings C14-F4 / C14-F5 repaired: one accepted behaviour, the float64 answer); "
                "C14_cp_as_tucker_den / C14_cp_tucker_same_gram: a CP model in Tucker form (superdiagonal core) denotes the Kruskal tensor, so the "
                "Tucker and the Kruskal code hand the same matrix to the solver; C14_captured_is_energy / C14_energy_of_eigenvectors / "
                "C14_max_energy / C14_kyfan_weights: eigenvectors of the r largest eigenvalues capture the maximal energy of the unfolding "
@@ -261,6 +262,7 @@ def gen_cases(rng, tier):
                         cases.append(Case("seq", dict(bs, repr=rp, modes=modes, rs=rs, flip=rng.random() < 0.8),
                                           any(shp[n] >= 2 for n in modes)))
     cases += _gen_variants(rng, big)
+    cases += _regression_dtype_cases()
     cases += _gen_cp_tucker(rng, big)
     cases += _gen_all_singleton(rng, big)
     return cases
@@ -406,7 +408,7 @@ def _gen_all_singleton(rng, big):
 
 
 DTYPES = (("bool", 0, 1), ("float32", -3, 4), ("int64", -3, 4), ("int32", -80000, 80000), ("int16", -400, 400), ("int8", -50, 50), ("uint8", 0, 255), ("uint16", 0, 60000))
-# element type of a sparse tensor's vals (finding C14-F4) / of a Tucker tensor's core and factors (finding C14-F5), with magnitudes
+# element type of a sparse tensor's vals / of a Tucker tensor's core and factors (repaired findings C14-F4 / C14-F5), with magnitudes
 VDTYPES = (("int64", -3, 4), ("int32", -80000, 80000), ("int16", -400, 400), ("uint8", 0, 255), ("int8", -50, 50), ("float32", -3, 4))
 HDTYPES = (("int64", -2, 3), ("int32", -2, 3), ("float32", -2, 3), ("uint8", 0, 12), ("int8", -9, 9), ("int16", -60, 60))
 NARROW = ("int8", "uint8", "int16")
@@ -502,22 +504,24 @@ def _gen_variants(rng, big):
             for _ in range(2 if big else 1):
                 n, r = _pick_nr(rng, shp)
                 _emit(cases, dict(b, dtype=dt), "dense", n, r, rng.random() < 0.8, shp)
-        # element type of a sparse tensor's value array (the constructor keeps integer / float32 arrays): both solver paths
+        # element type of a sparse tensor's value array (the constructor keeps integer / float32 arrays; nvecs casts tnt to float64
+        # since /repo 6aef7c8): both solver paths, ordinary cases
         for dt, lo, hi in VDTYPES:
             b = _bundle_dense(rng, shp, lo, hi)
             b["order"], b["sseed"] = rng.choice(["sorted", "reversed", "random"]), rng.randrange(10 ** 6)
             for n, r in _both_paths(rng, shp):
                 _emit(cases, dict(b, vdtype=dt), "sparse", n, r, rng.random() < 0.8, shp)
-        # element type of a Tucker tensor's core and factor matrices (the constructor keeps them): narrow integer holders are
-        # generated with magnitudes at which an intermediate product leaves the type's range
+        # element type of a Tucker tensor's core and factor matrices (the constructor keeps them; nvecs works on float64 copies since
+        # /repo 4b7dc0e): narrow integer holders are generated with magnitudes at which an intermediate product WOULD leave the type's
+        # range (cu.tucker_wraps, used by the generator only) — ordinary cases, the float64 answer is the one accepted behaviour
         for dt, lo, hi in HDTYPES:
             for rp in ("ttensor", "ttensor_sp"):
                 for n, r in _both_paths(rng, shp)[:2 if big else 1]:
-                    for _ in range(30):
-                        b = _bundle_tucker(rng, shp, None, (lo, hi))
+                    for att in range(60):       # second half: a third of the magnitude (4-way int16: products beyond 2^53 otherwise)
+                        b = _bundle_tucker(rng, shp, None, (lo, hi) if att < 30 else (-(-lo // 3), hi // 3))
                         r_ = min(r, shp[n])
-                        if dt not in NARROW or cu.tucker_wraps(dict(b, n=n, hdtype=dt)):
-                            break
+                        if (dt not in NARROW or cu.tucker_wraps(dict(b, n=n, hdtype=dt))) and cu.tucker_float_exact(dict(b, n=n)):
+                            break       # float64 forms every product exactly: the recorded solver input is compared by equality
                     else:
                         continue
                     b["order"], b["sseed"] = rng.choice(["sorted", "reversed", "random"]), rng.randrange(10 ** 6)
